@@ -739,6 +739,11 @@ func (i *Lifecycler) initRing(ctx context.Context) error {
 			level.Warn(i.logger).Log("msg", "instance found in ring as JOINING, setting to PENDING",
 				"ring", i.RingName)
 			instanceDesc.State = PENDING
+			// Write the updated entry back to the ring (instanceDesc is a copy) with a fresh heartbeat
+			// timestamp: stores which merge values (memberlist) only accept entries with a newer
+			// timestamp, and reject an update that doesn't change anything.
+			instanceDesc.Timestamp = time.Now().Unix()
+			ringDesc.Ingesters[i.ID] = instanceDesc
 			return ringDesc, true, nil
 		}
 
